@@ -29,6 +29,11 @@ def make_items(path, rng, n_extra):
     for (k, ts, v) in [(b"k", 1, b"v"), (b"", 0, b""), (b"key\x00\xff", 2**30 + 5, None), (b"a" * 40, 7, b"x" * 100)]:
         framed = (bytes([8]) + k + ts.to_bytes(8, "little") + v) if v is not None else (bytes([9]) + k + ts.to_bytes(8, "little"))
         add(framed, key=list(k), ts=ts, value=(list(v) if v is not None else []), tomb=(v is None))
+    # items whose SHA3-256 has a 32-bit word at or above its column's prime (found by search: ~1 in 5.6 million),
+    # so that hash_to_state's conditional subtraction is exercised
+    edge = json.load(open(os.path.join(vlib.VERIF, "lib", "setsum_edge_items.json")))
+    for (name, _col, _word) in rng.sample(edge, 3):
+        add(name.encode(), edge=True)
     for _ in range(n_extra):
         add(bytes(rng.randrange(256) for _ in range(rng.randrange(0, 70))))
     with open(path, "w") as f:
@@ -64,7 +69,9 @@ def check(replay=None):
         ipath = os.path.join(wd, f"items{rd}.ndjson")
         all_items = make_items(ipath, rng, 3)
         # TLC explores orders over a window of 3 items; rotate the window over the item list
-        window = [all_items[(rd * 3 + j) % len(all_items)] for j in range(3)]
+        plain = [it for it in all_items if not it.get("edge")]
+        edges = [it for it in all_items if it.get("edge")]
+        window = [plain[(rd * 2) % len(plain)], plain[(rd * 2 + 1) % len(plain)], edges[rd % len(edges)]]
         wpath = os.path.join(wd, f"window{rd}.ndjson")
         with open(wpath, "w") as f:
             for it in window:
